@@ -16,6 +16,7 @@ is: the output is a partial unfolding (`Exp`) of the input in which no schema ke
 -/
 import SpecModel.Props.ExpandCore
 import SpecModel.Expand.Check
+import SpecModel.Expand.SideConditions
 import SpecModel.Props.C03Denorm
 
 namespace SpecModel.Props.C09
@@ -41,5 +42,19 @@ example : checkExp ExpandCore.Wx [0] 40 (.node "root" [.ref 0, .ref 2] : Tree Na
     (.node "root" [.ref 0, .node "c" [.node "d" []]]) = true := by decide
 example : checkExp ExpandCore.Wx [0] 40 (.node "root" [.ref 0, .ref 2] : Tree Nat String)
     (.node "root" [.node "a" [.ref 1, .ref 2], .node "c" [.node "d" []]]) = false := by decide
+
+
+/-! ### Side conditions on the shape of expander.go (regenerated facts, `decide`) -/
+
+/-- every schema keyword that can hold a sub-schema (regenerated struct table of SchemaProps) is a position
+`expandSchema` / `expandItems` recurse into (regenerated from their AST), and conversely -/
+theorem side_positions_complete :
+    SpecModel.Expand.Side.positionsComplete SpecModel.Gen.structs SpecModel.Gen.expandPositions = true := by decide
+
+theorem side_sections_complete : SpecModel.Expand.Side.sectionsComplete SpecModel.Gen.specSections = true := by decide
+
+theorem side_operations_complete :
+    SpecModel.Expand.Side.operationsComplete SpecModel.Gen.pathItemOperations SpecModel.Gen.pathItemOperationFields = true := by
+  decide
 
 end SpecModel.Props.C09
